@@ -1,5 +1,5 @@
 CONSTANTS Ws = {2}  Hs = {2}  SBs = {1}  TABs = {2}  MaxOps = 8
-  Kind = "rec"  Bug = ""  Props = {"C18"}  EmitMode = "none"  EmitMod = 1
+  Kind = "rec"  Bug = ""  Props = {"C18"}  EmitMode = "sample"  EmitMod = 4
 CONSTANT Bytes <- MCBytes
 CONSTANT CurVals <- MCCurVals
 INIT Init
